@@ -4,7 +4,7 @@
 From Coq Require Import ZArith List Bool.
 From Low Require Import Lib.MachInt Lib.Bits Lib.BitSeq Model.Rank Spec.RankSpec Proofs.RankProofs.
 From Low Require Import Model.Rank32 Model.RankOps Model.BitmapOf Spec.RankLawsSpec Spec.OfQuerySpec
-  Proofs.Rank32Proofs Proofs.RankLaws Proofs.RankIndexLaws Proofs.RankConcat Proofs.RankHistory Proofs.RankCompose Proofs.RankComplement Proofs.RankConcat128.
+  Proofs.Rank32Proofs Proofs.RankLaws Proofs.RankIndexLaws Proofs.RankConcat Proofs.RankHistory Proofs.RankCompose Proofs.RankComplement Proofs.RankConcat128 Proofs.RankContract.
 Import ListNotations.
 Open Scope Z_scope.
 
@@ -170,6 +170,33 @@ Theorem C01_law_check_sound : forall ws i j, words_ok ws -> 0 <= i <= j -> j < 6
 Proof. exact law_check_sound. Qed.
 Print Assumptions C01_law_check_sound.
 
+(** the contract of the query functions on their own, whatever built the index: they read ONE entry and ONE word
+    (locality), and are exact as soon as that entry is the count before the checkpoint it stands for *)
+Theorem C01_Rank64_local : forall ws ws' ridx ridx' i,
+  nthZ ridx (Z.shiftr i 6) = nthZ ridx' (Z.shiftr i 6) -> nthZ ws (Z.shiftr i 6) = nthZ ws' (Z.shiftr i 6) ->
+  Rank64 ws ridx i = Rank64 ws' ridx' i.
+Proof. exact Rank64_local. Qed.
+Print Assumptions C01_Rank64_local.
+
+Theorem C01_Rank128_local : forall ws ws' ridx ridx' i,
+  nthZ ridx (Z.shiftr (i + 64) 7) = nthZ ridx' (Z.shiftr (i + 64) 7) ->
+  nthZ ws (Z.shiftr i 6) = nthZ ws' (Z.shiftr i 6) ->
+  Rank128 ws ridx i = Rank128 ws' ridx' i.
+Proof. exact Rank128_local. Qed.
+Print Assumptions C01_Rank128_local.
+
+Theorem C01_Rank64_contract : forall ws ridx i, words_ok ws -> 0 <= i < 64 * zlen ws ->
+  nthZ ridx (i / 64) = Some (rank1z (flat ws) (64 * (i / 64))) ->
+  Rank64 ws ridx i = Some (spec_Rank ws i).
+Proof. exact Rank64_contract. Qed.
+Print Assumptions C01_Rank64_contract.
+
+Theorem C01_Rank128_contract : forall ws ridx i, words_ok ws -> 0 <= i < 64 * zlen ws ->
+  nthZ ridx ((i + 64) / 128) = Some (rank1z (flat ws) (128 * ((i + 64) / 128))) ->
+  Rank128 ws ridx i = Some (spec_Rank ws i).
+Proof. exact Rank128_contract. Qed.
+Print Assumptions C01_Rank128_contract.
+
 (** the three indexes side by side are the running sums of the per-word bit counts (op bitmap.IndexRank/all, /rle) *)
 Theorem C01_indexes_running_sums : forall ws, words_ok ws ->
   (IndexRank64 ws false, IndexRank64 ws true, IndexRank128 ws) = spec_indexes ws.
@@ -276,6 +303,7 @@ Example C01_laws_nonvacuous :
   hrun (map build [ws; [1; 1; 1]]) [HQ F128 0 130; HQ F128 1 130; HSet 0 1 0; HQ (F64 true) 0 130; HQ F128 1 130]
     = Some [OQ (Some (67, 1)); OQ (Some (3, 0)); OT (Some 4); OQ (Some (3, 1)); OQ (Some (3, 0))] /\
   query F128 (map not64 ws) 130 = Some (63, 0) /\
+  Rank64 ws [0; 0; 66; 7; 7] 130 = Some (67, 1) /\ Rank128 ws [7; 66] 130 = Some (67, 1) /\
   ToArray ws = Some ([0; 2] ++ map Z.of_nat (seq 64 64) ++ [129; 130]) /\ Get1 ws 130 = Some 1.
 Proof. vm_compute. intuition congruence. Qed.
 
